@@ -25,14 +25,14 @@ PROPS = {
         level_text="Proved for every N and every behaviour of at most F keys: agreement follows from quorum certificates and one-signature-per-height (Properties/C01.v, quorum intersection by pigeonhole). The node-level premises are proved only in part (counting clause of the certificate, commit gate); the unconditional statement is false of the code (known findings D1f/D1fa: forks replayed on the real library).",
         level_note="partial: composition theorem proved; premises 'every counted signature verifies' and 'one commit per height' are exercised by monitors on the real code, not proved"),
     "C02": dict(family="node", level="proof", title="Decision certificate",
-        level_text="Proved for every reachable model state and script: the block (pre-block) is handed over only while M commits (pre-commits) of the current view are held, with all transactions, at most once per height. Not proved: that each counted signature verifies against that block (false of the code: D1, D1p, D2) and the 'is the proposal / extends the tip' clauses (exercised).",
+        level_text="Proved for every reachable model state and script: the block (pre-block) is handed over only while M commits (pre-commits) of the current view are held, with all transactions, at most once per height. Refuted with a model-level witness that is the real library's own history: that each counted signature verifies against that block (D1, D1p, D2) and the 'is the proposal / extends the tip' clauses (exercised).",
         level_note="partial: counting and at-most-once clauses proved on the whole model; signature validity is a known finding; remaining clauses exercised by monitors + correspondence"),
     "C03": dict(family="node", level="other", title="Non-equivocation and commit lock",
-        level_text="No Coq theorem states this property yet. Decided by monitors on the real library over generated histories (own-message history per node and height) with the model tied to the code by the correspondence run.",
-        level_note="exploration with monitors; model-code correspondence; no theorem"),
+        level_text="Proved for every state with the own Commit/PreCommit slot filled (non-watch-only validator): a retransmitted Commit/PreCommit is the stored one (nothing signed again); a timeout, a peer's ChangeView and a transaction leave the view untouched and broadcast no ChangeView. Not proved: the lock against a PrepareRequest arriving after the commit (needs an authenticity assumption the library does not check) and the history-level clauses (one proposal/response per view, one commit per height, view monotonicity, recovery contents): decided by monitors on every node's outgoing history on the real library.",
+        level_note="partial: lock proved at three of its four sites, identical retransmission proved; history clauses by exploration with monitors; model-code correspondence"),
     "C04": dict(family="node", level="proof", title="Quorum-gated progress",
-        level_text="Proved for every reachable model state and script: a PrepareResponse is broadcast only with all transactions held and names the hash of the proposal in the primary's slot; Commit/PreCommit only with M current-view preparations including a request and all transactions. Not proved: 'verification callback accepted' and the M-ChangeView condition for entering a view (exercised).",
-        level_note="partial: response/commit/pre-commit gates proved on the whole model; view-entry and verification-accepted clauses exercised"),
+        level_text="Proved for every reachable model state and script: a PrepareResponse is broadcast only with all transactions held and names the hash of the proposal in the primary's slot; Commit/PreCommit only with M current-view preparations including a request and all transactions. Proved over all started histories: in a view v > 0 the node holds M kept ChangeView requests for v or above. Not proved: 'the verification callback accepted the block' (exercised).",
+        level_note="response/commit/pre-commit gates and the view-entry condition proved; the verification-accepted clause exercised"),
     "C05": dict(family="node", level="proof", title="One decision per height, quiescence, clean re-initialisation",
         level_text="Proved: ProcessBlock only while undecided (at most one hand-over per height) and only recovery messages are broadcast after the decision, for every reachable state; timeouts, transactions and non-recovery payloads after the decision change nothing (every state). Not proved: the clean re-initialisation / early-payload clauses (exercised by monitors + correspondence).",
         level_note="partial: decision-once and quiescence proved; re-initialisation clauses exercised"),
@@ -55,9 +55,9 @@ PROPS = {
     "C11": dict(family="node", level="proof", title="Input hygiene",
         level_text="Proved: every inadmissible class named by the property and re-delivery of stored response/commit/pre-commit/proposal leave the state unchanged up to LastSeenMessage and make no callback but watch-only queries (every state); no sequence of well-formed API calls panics the model (sizing invariant over all histories). Re-delivered ChangeView: known finding D15.",
         level_note="proved on the model; Go panics at sites the model lacks are decided by the correspondence run"),
-    "C12": dict(family="node", level="other", title="A backup given every requested transaction answers",
-        level_text="No Coq theorem yet. Decided by a monitor on the real library (requested set per proposal, answer at the last supplied transaction) over generated histories and corpus scenarios; model tied by correspondence.",
-        level_note="exploration with monitors; no theorem"),
+    "C12": dict(family="node", level="proof", title="A backup given every requested transaction answers",
+        level_text="Proved for every state that meets the property's conditions (backup, proposal of the current view held, not view-changing, no response/commit yet, undecided) and every script under which the node is a non-watch-only validator: the OnTransaction call that completes the proposal's transaction set broadcasts a PrepareResponse, or a ChangeView when the completed block fails verification. The clause about a view change inside the same call (fix D3) is decided by the monitor and corpus scenario.",
+        level_note="main clause proved on the model; nested-view-change clause exercised (monitor + corpus scenarios D3, 1012)"),
     "C13": dict(family="node", level="proof", title="Watch-only nodes are silent",
         level_text="Proved for every model state, API call and script: if the watch-only flag answers true whenever consulted (it is consulted only while the node is in the validator list) nothing is broadcast, signed or given pre-commit data.",
         level_note="proved on the whole model (the 'others progress as with a silent validator' clause follows from emitting nothing)"),
